@@ -83,7 +83,19 @@ PROPS["C13"] = {"engines": [("external", {"quick": 48, "thorough": 600})], "rule
                 "assumptions": ["SHA-256 enters only as an arbitrary function H; the invariants need no property of it except PrefixUnique for 'referenced => persisted'",
                                 "file-system operations rename / unlink / write are atomic per call"]}
 
+VALUES_RULE = ("seeded generator (harness/engines/values.py): expressions over the whole supported universe — int (incl. huge), bool, None, float (incl. inf, -0.0), complex, "
+               "str, bytes, Enum, Flag, classes, dataclass (defaults, default_factory), attrs, pydantic, NamedTuple / namedtuple, defaultdict, objects with non-Python repr (HasRepr), "
+               "list / tuple / dict / set / frozenset nesting (sets of ints, strs, mixed, arbitrary hashables) up to depth 3; operations == <= >= in [key]; placements assert / helper "
+               "argument / module level / loop; a fraction of cases repeated in separate interpreters with PYTHONHASHSEED 0 / 1 / 4242, with black missing and with a format-command")
+PROPS["C01"] = {"engines": [("values", {"quick": 700, "thorough": 20000}), ("strlit", {"quick": 800, "thorough": 20000}), ("site", {"quick": 800, "thorough": 20000})],
+                "rule": VALUES_RULE + " ; plus " + STR_RULE + " ; plus " + SITE_RULE, "cap_s": {"quick": 80, "thorough": 850},
+                "assumptions": ["class names used by generated code resolve in the test module (classes are defined at module level)",
+                                "the formatter preserves the value of the generated fragment (validated per case by the disabled re-run)"]}
+
 ENGINES = {
+    "values": "values of the whole supported type universe written by create; disabled re-run as oracle; second/third run; hash seeds and formatter configurations in separate interpreters",
+    "setsort": "order of set elements in generated code vs Model/SetSort.lean; construction-order independence",
+    "faults": "fault injection (conftest plugin) at every primitive of the write phase in real sessions vs Model/Finish.lean crashAt; old-or-new and no-dangling-external oracle",
     "assign": "x == snapshot(<display>) at any depth: categories, answer and rewritten tree, model vs real adapters; multi-run modes for C08 / C09",
     "external": "histories of real sessions over outsourced data; storage directory after every session vs Model/External.lean; invariants checked on the directory",
     "rewrite": "whole-file rewriting: recorded replacements -> Model/Rewrite.lean newCode vs written file; byte/AST preservation outside snapshot() arguments; formatter-clean stays clean",
@@ -153,3 +165,7 @@ PROPS["C11"]["level_text"] += " Plus (Props/C11b.lean) equal_kept: if the value 
 PROPS["C13"]["level_text"] = ("Model of the storage directory (Model/External.lean) compared after every real session of a history; direct oracle on the directory: name = SHA-256 of "
     "content, no -new file survives a session start, persisted only if referenced, removed only by approved trim and only if unreferenced, missing / ambiguous prefix raises. "
     "Theorems: see Props/C13.lean.")
+
+PROPS["C01"]["level_text"] = ("Theorems: value level (Props/C01.lean) create_eq, create_bound, create_in, create_getitem, create_needs_approval — the written value makes the same comparison hold, "
+    "for every observation sequence; value -> text: eval_canon (Props/C02), string literals (Props/C12), set order (Props/C16). The formatter enters as the validated assumption. "
+    "Correspondence + direct oracle: values of every supported type at any nesting are created by the real code and the rewritten module is re-executed with inline-snapshot disabled.")
